@@ -311,6 +311,8 @@ func c07(r *Report, s *Sem) {
 	R8 := r.Rule("R8", "option or scheme that was not offered ⇒ failed: the negotiation confirmation and the authentication callback are reachable only through the ok edges of lookups of the client's selection in sets built from the offered lists", 4)
 	checkNegotiationGate(r, s, R8)
 	checkSchemeGate(r, s, R8)
+	R9 := r.Rule("R9", "first-envelope rule: the negotiation and authentication stages are reachable only for a first session envelope whose own state is 'new' and whose id is empty; any other first envelope falls through to the failing answer", 2)
+	checkFirstEnvelopeGate(r, s, R9)
 
 	// ---- R6
 	for _, fn := range []*ssa.Function{fin, fail} {
